@@ -19,6 +19,10 @@ import (
 
 // ---------------------------------------------------------------- reporting
 
+// lib.Run writes at most 20 replay files per run; one written-out witness per class
+// lets every class of a run get one (every further occurrence is only counted).
+const witnessesPerClass = 1
+
 // reporter keeps the number of written-out witnesses per class small (a
 // systematic defect fires in most cases) while counting every occurrence.
 type reporter struct {
@@ -33,7 +37,7 @@ type reporter struct {
 func (rp *reporter) want(class string) bool {
 	rp.mu.Lock()
 	defer rp.mu.Unlock()
-	return rp.seen[class] < 3
+	return rp.seen[class] < witnessesPerClass
 }
 
 func (rp *reporter) count(class string) {
@@ -49,10 +53,10 @@ func (rp *reporter) viol(class string, idx int, brief string, w any) {
 	n := rp.seen[class]
 	rp.seen[class] = n + 1
 	rp.mu.Unlock()
-	if n >= 3 {
+	if n >= witnessesPerClass {
 		return
 	}
-	rp.r.Violation(class, idx, brief, w)
+	rp.r.Violation(class, idx, fmt.Sprintf("[case %d] %s", idx, brief), w)
 }
 
 // watchdog is generous: a verification normally takes well under 10 ms.
